@@ -150,7 +150,7 @@ PROPS['C01'] = dict(
 PROPS['C07'] = dict(
     title='history independence',
     units=['kwstack'],
-    engines=[dict(module='gvc.engine', args=dict(analyses=('frame',)))],
+    engines=[dict(module='gvc.engine', args=dict(analyses=('frame', 'kwsites')))],
     shims=['A-packrat'],
     design='DESIGN.md 3/C07',
     technique='frame conditions over the call graph of the real parser sources, checked modularly (least fixpoint of effect summaries), plus inventory of statics in all six crates',
@@ -183,7 +183,7 @@ PROPS['C15'] = dict(
 PROPS['C17'] = dict(
     title='memo transparency',
     units=[],
-    engines=[dict(module='gvc.engine', args=dict(analyses=('frame',))), REPLAY],
+    engines=[dict(module='gvc.engine', args=dict(analyses=('frame', 'kwsites'))), REPLAY],
     shims=['A-packrat'],
     design='DESIGN.md 3/C17',
     technique='frame condition per memoised function: every thread-local it can read or write (transitively, modular fixpoint over the real call graph) must be represented in the memo key',
